@@ -104,6 +104,17 @@ def cases(tier, inst):
                     if a != b:
                         yield ((op, (("or" if op == "and" else "and"), f, a), b), 3, "xy", "fa")
         yield (f, k, "xy", "fa")
+    # three-way disjunctions with one variable projected away over small worlds of two x rows and three DISTINCT y rows:
+    # which rows come back between two false rows of one operand depends on the data and on the spelling
+    from .c02 import OR3_LEAVES
+    from ..common import tiny_domains
+    doms_x = [d for d in tiny_domains(2) if len(d) == 2]
+    doms_y = [d for d in tiny_domains(3) if len(d) == 3 and len(set(d)) == 3]
+    for a, b, c in itertools.permutations(OR3_LEAVES[:4], 3):
+        if len(Q.cond_vars(("orf", a, b, c))) < 2 or (tier == "quick" and a != OR3_LEAVES[0]):
+            continue
+        for da, db in itertools.product(doms_x, doms_y):
+            yield (("orf", a, b, c), 2, "x", ("w", (("DA", "Item", da), ("DB", "Item", db))))
     # only some of the variables selected (the other one is a join variable that is projected away)
     proj = leaves_xy()[:7]
     for a, b, c in itertools.permutations(proj, 3):
@@ -230,11 +241,12 @@ def run_case(case, inst):
     if case[0] == "rule":
         return run_rule_case(case, inst)
     tree, k = case[0], case[1]
-    fa = len(case) == 4           # z is the universal variable of a for_all: declared, neither selected nor a row variable
+    wspec = case[3][1] if len(case) == 4 and case[3][0] == "w" else RICH
+    fa = len(case) == 4 and case[3] == "fa"          # z is the universal variable of a for_all: declared, neither selected nor a row variable
     three = "z" in Q.cond_vars(tree) and not fa
     vars0 = VARS3 if three else VXY
     sel0 = (X, Y, Z) if three else (X, Y)
-    if len(case) == 3:
+    if len(case) == 3 or (len(case) == 4 and not fa):
         sel0 = (("v", case[2]),)
     base = ((tree,), vars0, sel0, 0)
     members = orbit(base, k)
@@ -243,7 +255,7 @@ def run_case(case, inst):
     def evaluate(m):
         conds, vars_, sel, perm = m
         q = ("Q", "an", "setof", sel, conds, vars_)
-        world = build_world(RICH, PermInst(inst, perm))
+        world = build_world(wspec, PermInst(inst, perm))
         rows = eval_rows(q, world, inst, predeclare=universals)
         if is_exc(rows):
             return rows, None
@@ -295,8 +307,10 @@ def describe(case, inst):
                 + "\n# C18: the same rule tree over the x / z domains as given, reversed and rotated must conclude the same")
     tree, k = case[0], case[1]
     three = "z" in Q.cond_vars(tree) and len(case) != 4
-    sel = (("v", case[2]),) if len(case) == 3 else ((X, Y, Z) if three else (X, Y))
-    return (Q.up_world(RICH, inst) + ("\nwith symbolic_mode(): z = let(Item, DC)   # the universal variable" if len(case) == 4 else "")
+    tiny = len(case) == 4 and case[3][0] == "w"
+    sel = (("v", case[2]),) if len(case) == 3 or tiny else ((X, Y, Z) if three else (X, Y))
+    return (Q.up_world(case[3][1] if tiny else RICH, inst)
+            + ("\nwith symbolic_mode(): z = let(Item, DC)   # the universal variable" if len(case) == 4 and not tiny else "")
             + "\nbase: " + Q.up_query(("Q", "an", "setof", sel, (tree,),
                                                               VARS3 if three else VXY), inst)
             + f"\n# every query reachable from the base by <= {k} rewrites (swap operands, re-associate, and_()/or_() form, "
